@@ -89,6 +89,8 @@ func opName(op int) string {
 
 // drain applies the bounded-progress rule: kill silent connections (premise), run OPTIONS round trips on every client
 // with outstanding requests, and decide "lost" when nothing moves although the premise holds. It reports violations.
+var flushSeq int64
+
 func drain(r *mon.Result, bed *px.Bed, scripts *Scripts, clients []*rawcql.Client, label string, scenario map[string]interface{}, mark int) {
 	closed := map[int]bool{}
 	byID := map[int]*rawcql.Client{}
@@ -97,6 +99,7 @@ func drain(r *mon.Result, bed *px.Bed, scripts *Scripts, clients []*rawcql.Clien
 	}
 	prev := -1
 	stable := 0
+	noFlush := map[int]bool{}
 	for round := 0; round < 60; round++ {
 		scripts.KillSilent()
 		evs := bed.Log.Snapshot()[mark:]
@@ -129,6 +132,15 @@ func drain(r *mon.Result, bed *px.Bed, scripts *Scripts, clients []*rawcql.Clien
 				if !ProgressSteps(cl, 50, 32000+int16(round%500)) {
 					stepped = false
 				}
+				// ... and a few forwarded round trips: OPTIONS are answered by the proxy itself, so on a loaded machine a hundred
+				// of them can complete while forwarded requests are still queued towards the backends; requests that travel
+				// the same way pace the verdict by the speed the proxy-backend pipeline really has
+				for q := 0; q < 5 && !noFlush[k.cl]; q++ {
+					ftok := fmt.Sprintf("%s%012x", fakecass.FlushTokenPrefix, atomic.AddInt64(&flushSeq, 1))
+					if _, err := cl.CallF(BuildRequest(cl.Version, 32600+int16(q), KQuery, true, ftok, primitive.ConsistencyLevelOne), 10*time.Second); err != nil {
+						noFlush[k.cl] = true // a flush request that is itself lost: no pacing for this client any more
+					}
+				}
 			}
 		}
 		if !stepped {
@@ -142,7 +154,7 @@ func drain(r *mon.Result, bed *px.Bed, scripts *Scripts, clients []*rawcql.Clien
 			stable = 0
 		}
 		prev = len(eo.Outstanding)
-		if stable >= 2 {
+		if stable >= 3 {
 			break
 		}
 	}
@@ -834,6 +846,22 @@ func runC01(c *Ctx) {
 			storms = append(storms, stormParams{Hosts: 1 + rng.Intn(4), Conns: 1 + rng.Intn(2), Clients: 1 + rng.Intn(16), PerClient: 500 + rng.Intn(1500),
 				Window: 50 + rng.Intn(1950), DeathRate: rng.Intn(25), Silence: rng.Intn(2) == 0, Compress: rng.Intn(2) == 0})
 		}
+	}
+	if c.Replay != nil && c.Replay["kind"] == "storm" { // the storm of the recorded index (thorough list)
+		want := int(c.Replay["idx"].(float64))
+		all := storms
+		if c.Quick() {
+			for k := 0; k < 236; k++ {
+				rng := c.Rng(1000 + k)
+				all = append(all, stormParams{Hosts: 1 + rng.Intn(4), Conns: 1 + rng.Intn(2), Clients: 1 + rng.Intn(16), PerClient: 500 + rng.Intn(1500),
+					Window: 50 + rng.Intn(1950), DeathRate: rng.Intn(25), Silence: rng.Intn(2) == 0, Compress: rng.Intn(2) == 0})
+			}
+		}
+		if want >= 1 && want <= len(all) {
+			c.Step("%s", all[want-1].String())
+			storm(c, want, all[want-1], nil)
+		}
+		return
 	}
 	for _, sp := range storms {
 		k := next()
